@@ -12,21 +12,29 @@ Section Keystore.
 
   Definition key_of (password : list byte) : list byte := blake2b_256 password.
 
-  (* Encrypt(msg, password) with the nonce read from rand.Reader *)
+  (* Encrypt(msg, password) with the nonce read from rand.Reader.  The [_k] forms take the
+     derived key (so that a driver can derive it once); the password forms are the Go entry
+     points. *)
+  Definition encrypt_k (key nonce msg : list byte) : outcome (list byte) :=
+    seal (cipher key) nonce msg.
   Definition encrypt (password nonce msg : list byte) : outcome (list byte) :=
-    seal (cipher (key_of password)) nonce msg.
+    encrypt_k (key_of password) nonce msg.
 
   (* Decrypt(data, password) as repaired (fixes/C37-decrypt-short-input.patch): a length check
      precedes the slicing *)
-  Definition decrypt (password data : list byte) : outcome (list byte) :=
+  Definition decrypt_k (key data : list byte) : outcome (list byte) :=
     if (length data <? 12)%nat then Err 2
-    else open (cipher (key_of password)) (firstn 12 data) (skipn 12 data).
+    else open (cipher key) (firstn 12 data) (skipn 12 data).
+  Definition decrypt (password data : list byte) : outcome (list byte) :=
+    decrypt_k (key_of password) data.
 
   (* Decrypt of the pinned tree: data[:nonceSize] / data[nonceSize:] without a length check;
      slicing beyond the length panics *)
-  Definition decrypt_prefix (password data : list byte) : outcome (list byte) :=
+  Definition decrypt_prefix_k (key data : list byte) : outcome (list byte) :=
     if (length data <? 12)%nat then Panic
-    else open (cipher (key_of password)) (firstn 12 data) (skipn 12 data).
+    else open (cipher key) (firstn 12 data) (skipn 12 data).
+  Definition decrypt_prefix (password data : list byte) : outcome (list byte) :=
+    decrypt_prefix_k (key_of password) data.
 
   (* ---- private keys, as their encodings ---- *)
   Inductive scheme := Ed25519 | Sr25519 | Secp256k1.
@@ -60,8 +68,10 @@ Section Keystore.
   Definition encrypt_private_key (password nonce keybytes : list byte) : outcome (list byte) :=
     encrypt password nonce keybytes.
 
+  Definition decrypt_private_key_k (key data : list byte) (s : scheme) : outcome (list byte) :=
+    obind (decrypt_k key data) (decode_private_key s).
   Definition decrypt_private_key (password data : list byte) (s : scheme) : outcome (list byte) :=
-    obind (decrypt password data) (decode_private_key s).
+    decrypt_private_key_k (key_of password) data s.
   Definition decrypt_private_key_prefix (password data : list byte) (s : scheme) : outcome (list byte) :=
     obind (decrypt_prefix password data) (decode_private_key s).
 End Keystore.
@@ -89,26 +99,32 @@ Definition out_eqb (a b : outcome (list byte)) : bool :=
 Section Predicates.
   Variable cipher : list byte -> list byte -> list byte.
 
-  (* [data] is exactly what Encrypt produces for plaintext [p] under [pw] with the nonce that
-     [data] starts with *)
-  Definition genuine (pw data p : list byte) : bool :=
-    match encrypt cipher pw (firstn 12 data) p with
+  (* [data] is exactly what Encrypt produces for plaintext [p] under the key with the nonce
+     that [data] starts with *)
+  Definition genuine_k (key data p : list byte) : bool :=
+    match encrypt_k cipher key (firstn 12 data) p with
     | Ok d => bytes_eqb d data
     | _ => false
     end.
+  Definition genuine (pw data p : list byte) : bool := genuine_k (key_of pw) data p.
 
   (* a Decrypt result is acceptable: an error, or a plaintext of which [data] is a genuine
      encryption; never a crash *)
-  Definition prop_decrypt (pw data : list byte) (res : outcome (list byte)) : bool :=
+  Definition prop_decrypt_k (key data : list byte) (res : outcome (list byte)) : bool :=
     match res with
-    | Ok p => genuine pw data p
+    | Ok p => genuine_k key data p
     | Err _ => true
     | _ => false
     end.
+  Definition prop_decrypt (pw data : list byte) (res : outcome (list byte)) : bool :=
+    prop_decrypt_k (key_of pw) data res.
 
-  (* Encrypt then Decrypt with the same password returns the message *)
-  Definition prop_roundtrip (pw nonce msg ct : list byte) (res : outcome (list byte)) : bool :=
-    out_eqb (encrypt cipher pw nonce msg) (Ok ct) && out_eqb res (Ok msg).
+  (* Encrypt then Decrypt with the same password returns the message, and the stored
+     ciphertext is a genuine encryption of it (under the nonce it starts with) *)
+  Definition prop_roundtrip_k (key msg ct : list byte) (res : outcome (list byte)) : bool :=
+    genuine_k key ct msg && out_eqb res (Ok msg).
+  Definition prop_roundtrip (pw msg ct : list byte) (res : outcome (list byte)) : bool :=
+    prop_roundtrip_k (key_of pw) msg ct res.
 
   (* a ciphertext that differs from the stored one, or a different password, must be refused *)
   Definition prop_refused (changed : bool) (res : outcome (list byte)) : bool :=
